@@ -4,8 +4,9 @@ emit('C10', '''C10 — Forwarding isolation: no relaying, exact once-only delive
    every selected peer and to no other node) quantifies over networks of nodes; it is decided by the
    executed correspondence on 2-5 node meshes with a conservation oracle (py/props/c10.py).  The
    per-node theorems below are the facts that oracle rests on.''',
- ['Base','Nonce','Replay','Core','CoreProofs','Conn','PeerCrypto','SealProofs','Table','Node','NodeProofs','TrustProofs'],
- [('iface_only_sends','NodeProofs.v','iface_read_effects','an interface read only ever causes datagrams to peers, never an interface write'),
+ ['Base','Nonce','Replay','Core','CoreProofs','Conn','PeerCrypto','SealProofs','Table','Node','NodeProofs','TrustProofs','EndToEndProofs'],
+ [('unicast_end_to_end','EndToEndProofs.v','unicast_end_to_end','END TO END (two nodes): a frame read from the interface of node A whose destination resolves to peer B causes exactly one datagram, to B, and that datagram makes B write exactly that frame to its interface and nothing else, whenever the two connection objects are in sync (B holds A\'s sealing key under its id, nonce reconstructible, window admits: the C07/C04/C03 invariants)'),
+  ('iface_only_sends','NodeProofs.v','iface_read_effects','an interface read only ever causes datagrams to peers, never an interface write'),
   ('send_to_peers_only','NodeProofs.v','send_data_effects','and a datagram goes to an address only if it is an established peer'),
   ('no_relay','NodeProofs.v','data_no_relay','payload received from a peer causes at most one interface write of exactly that body and no datagram to anyone: no relaying'),
   ('unknown_dest_router','NodeProofs.v','iface_unknown_router_drops','router mode, unknown destination: dropped and counted'),
